@@ -1,8 +1,8 @@
 """C11 — the job set is exactly: scheduled minus deleted minus retired."""
 from __future__ import annotations
 
-from .. import core, gen, impl_thr, scen
-from . import c01
+from .. import core, gen, impl_thr, runlib, scen
+from . import c01, c08
 
 ID = "C11"
 BUDGET = {"quick": 1600, "thorough": 200000}
@@ -196,7 +196,8 @@ def specs(r):
             if ob["jobs"].get(k, (0, 0, 0, 0, 0, 0))[4] == 1 and k in now:
                 qs.append(("spec eq 0 1", {"what": "retired job registered again", "key": k, "op": i}))
         qs.append((f"spec eq {1 if now == want else 0} 1", {"what": "registry_eq", "op": i, "reported": sorted(now), "expected": sorted(want)}))
-    return qs
+    # "retired by ... stop": legitimately only when the job's next occurrence (by the Spec) lies past its stop
+    return qs + runlib.stop_retirement_specs(r, c08.tms_tokens)
 
 
 def classes(r):
